@@ -219,8 +219,10 @@ func runCase(p *Pair, env *Env, c Case) caseOutcome {
 		switch base {
 		case "cli.generate", "cli.update", "cli.compare":
 			prewarmJoins(p, env, op.Args[0:6], op.Args[7:])
-		case "cli.compareAll":
+		case "cli.compareAll", "cli.compareAllOut":
 			prewarmJoins(p, env, op.Args[1:7], op.Args[7:])
+		case "cli.compareOut":
+			prewarmJoins(p, env, op.Args[1:7], op.Args[8:])
 		case "cli.updateAll":
 			prewarmJoins(p, env, op.Args[0:6], op.Args[6:])
 		}
